@@ -34,7 +34,7 @@ def sampleDoc : WDoc :=
                  assign := some .one, prob := some .one }] }] }
 
 example : docShapes cfgOfSource sampleDoc = [] := by decide
-example : ∀ a b c : Bool, docShapes ⟨a, b, c⟩ sampleDoc = [] := by decide
+example : ∀ a b c d : Bool, docShapes ⟨a, b, c, d⟩ sampleDoc = [] := by decide
 
 /-- **C20 (outside the exception shapes).**  For every document none of whose edges / templates has one of the computed
     shapes, the writer does not crash and an independent reader of the written tree finds exactly the document's graph:
@@ -133,8 +133,8 @@ def witness : Shape → WDoc
 /-- every shape occurs in its witness, and on the witness the written graph differs from the document's graph
     (or the writer crashes) -/
 theorem C20_witness (s : Shape) :
-    s ∈ docShapes ⟨false, false, false⟩ (witness s) ∧
-    (writeXml ⟨false, false, false⟩ (witness s)).map readGraph ≠ some (graphOf ⟨false, false, false⟩ (witness s)) := by
+    s ∈ docShapes ⟨false, false, false, false⟩ (witness s) ∧
+    (writeXml ⟨false, false, false, false⟩ (witness s)).map readGraph ≠ some (graphOf ⟨false, false, false, false⟩ (witness s)) := by
   cases s <;> decide
 
 /-- the shapes that the writer of the *current* source has: computed from the generated tables -/
@@ -152,13 +152,13 @@ def allLabelsLoc : WLoc := { name := "L", inv := some (.plain "i"), rate := some
 
 /-- the label kinds the model writes, in order, are exactly the `label("kind", ..)` calls of `XMLWriter::labels` and
     `XMLWriter::location`; the attributes of a transition are those of `XMLWriter::transition`; `XMLWriter::label`
-    skips "1" and strips "1 && "; only `select[0]` is written -/
+    skips "1" and strips "1 && "; whether only `select[0]` or every binding with its declared type is written is read off the source -/
 theorem C20_tables :
     ((wEdgeLabels cfgOfSource allLabelsEdge).filterMap lblF).map (·.1) = Gen.XmlTables.writerEdgeLabels ∧
     ((wLocKids (allLabelsLoc, 0)).filterMap lblF).map (·.1) = Gen.XmlTables.writerLocLabels ∧
     (wEdgeAttrs cfgOfSource allLabelsEdge).map (·.1) = Gen.XmlTables.writerTransitionAttributes ∧
     Gen.XmlTables.writerSkips = ["1"] ∧ Gen.XmlTables.writerStrips = ["1 && "] ∧
-    Gen.XmlTables.writerSelectAll = false := by
+    cfgOfSource.sel = (Gen.XmlTables.writerSelectAll && Gen.XmlTables.writerSelectDeclared) := by
   decide
 
 end UtapModel.AM
